@@ -21,7 +21,7 @@ def probeStr (s : St) (u : Nat) : String :=
   let g := if gs.isEmpty then "-" else ",".intercalate gs
   s!"g={g} n={length s} k={natList (sortedKeys s)} v={natList (sortedValues s)}"
 
-def ttlStep (su : St × Nat) (op : List String) : (St × Nat) × Option String :=
+def ttlStep (su : St × Nat) (op : List String) (_ : List (List String)) : (St × Nat) × Option String :=
   let (s, u) := su
   let r (p : St × Out) : (St × Nat) × Option String :=
     ((p.1, u), match p.2 with
@@ -43,7 +43,7 @@ def ttlStep (su : St × Nat) (op : List String) : (St × Nat) × Option String :
 
 /-- C32 monitor on the implementation's own answers at a `probe`: the keys `get` finds, the
 listing and the count must describe the same set, and values must be the looked-up values. -/
-def ttlMon (m : Unit) (op : List String) (obs : Option String) : Unit × List Fail :=
+def ttlMon (m : Unit) (op : List String) (_ : List (List String)) (obs : Option String) : Unit × List Fail :=
   match op, obs with
   | ["probe"], some o =>
     let toks := o.splitOn " "
